@@ -150,6 +150,7 @@ Variable populate : A -> list trial -> bool -> tid -> A * status * V.
 Variable hook_end : A -> tid -> V -> A.
 Variable hook_end_abort : A -> tid -> V -> A.
 Variable hook_reload : A -> A.
+Variable reissue : V -> V.
 Notation ost := (@ostate A V Sc).
 
 Definition stat (s : ost) (id : nat) : option status := option_map t_status (nth_error (trials s) id).
@@ -241,7 +242,7 @@ Proof.
 Qed.
 
 (* ---------------- create_trial ---------------- *)
-Theorem inv_create c s tu : Inv s -> Inv (fst (do_create vdef populate c s tu)).
+Theorem inv_create c s tu : Inv s -> Inv (fst (do_create vdef populate reissue c s tu)).
 Proof.
   intros HI. unfold do_create.
   destruct (alookup tu (ongoing s)) as [id0|] eqn:Elk.
@@ -313,9 +314,9 @@ Proof.
     pose proof (stat_lt _ _ _ Hst0) as Hlt.
     pose proof (I_part _ HI) as Hp. rewrite Hrq in Hp. apply part3_b_to_a in Hp.
     simpl.
-    assert (Hother : forall j, j <> id -> nth_error (upd id (set_status RUNNING) (trials s)) j = nth_error (trials s) j).
+    assert (Hother : forall j, j <> id -> nth_error (upd id (reissue_trial reissue) (trials s)) j = nth_error (trials s) j).
     { intros j Hj. apply nth_upd_other. congruence. }
-    assert (Hself : option_map t_status (nth_error (upd id (set_status RUNNING) (trials s)) id) = Some RUNNING).
+    assert (Hself : option_map t_status (nth_error (upd id (reissue_trial reissue) (trials s)) id) = Some RUNNING).
     { rewrite nth_upd_same. unfold stat in Hst0. destruct (nth_error (trials s) id); [reflexivity|discriminate]. }
     assert (Hnotin : ~ In id (rev rq')). { destruct Hp as (Ha & _ & _ & Hab & _). apply Hab. apply in_or_app. right. now left. }
     constructor; simpl.
@@ -532,11 +533,11 @@ Proof.
 Qed.
 
 Theorem C01_lifecycle c a ops : abort_early c = false ->
-  Forall (fun rs => Inv (snd rs)) (run vdef score_fn populate hook_end hook_end_abort hook_reload c (init a) ops).
+  Forall (fun rs => Inv (snd rs)) (run vdef score_fn populate hook_end hook_end_abort hook_reload reissue c (init a) ops).
 Proof.
-  intros Hab. assert (H : forall s, Inv s -> Forall (fun rs => Inv (snd rs)) (run vdef score_fn populate hook_end hook_end_abort hook_reload c s ops)).
+  intros Hab. assert (H : forall s, Inv s -> Forall (fun rs => Inv (snd rs)) (run vdef score_fn populate hook_end hook_end_abort hook_reload reissue c s ops)).
   { induction ops as [|o r IH]; intros s HI; simpl; [constructor|].
-    destruct (step vdef score_fn populate hook_end hook_end_abort hook_reload c s o) as [s' rs] eqn:Es.
+    destruct (step vdef score_fn populate hook_end hook_end_abort hook_reload reissue c s o) as [s' rs] eqn:Es.
     assert (HI' : Inv s').
     { destruct o as [tu|id f|id es f|]; simpl in Es.
       - pose proof (inv_create c s tu HI) as H. now rewrite Es in H.
